@@ -63,3 +63,23 @@ func modFor(p *load.Program) *emod.Mod {
 	modCache[p] = m
 	return m
 }
+
+// cb renders a commutative binary operation in the walker's canonical operand
+// order (constants second, otherwise by rendering).
+func cb(op, a, b string) string {
+	isConst := func(x string) bool {
+		if x == "" {
+			return false
+		}
+		for _, c := range x {
+			if c < '0' || c > '9' {
+				return false
+			}
+		}
+		return true
+	}
+	if (isConst(a) && !isConst(b)) || (!isConst(a) && !isConst(b) && a > b) {
+		a, b = b, a
+	}
+	return "(" + a + " " + op + " " + b + ")"
+}
